@@ -32,6 +32,10 @@ RULE = ("(configured path, directory population, policy) triples: paths over the
         "sub-second part of the duration, and the limit itself) or callable, triggered by a rotation or by "
         "stop()/remove().  non-trivial = population has >= 1 family file and >= 1 non-family look-alike and the "
         "path contains a metacharacter, a field or several dots; distinct by (path, population, policy).  "
+        "Histories: one long-lived sink through 2-4 rotations (+ stop, also twice), between the passes files are "
+        "modified again (order flips, ages cross the limit), appear, disappear, the clock advances; every pass is "
+        "judged on the directory as it is at that pass; the targets of symbolic links (outside the directory) must "
+        "stay untouched.  Own names: _create_path / generate_rename_path on generated templates.  "
         "Stdlib/model streams: (pattern, name) pairs for fnmatch / glob.escape / splitext / glob.glob and "
         "templates for string.Formatter().parse / _make_glob_patterns, distinct by input")
 TRUSTED = [
@@ -41,6 +45,10 @@ TRUSTED = [
     "string.Formatter().parse on every run",
     "file-system semantics (listing, isfile, remove, mtime) are the real ones in the end-to-end stream, absent "
     "from the theorems; mtimes are exact integers in the model (floats in the code)",
+    "Retention/Collect.lean models a set as a duplicate-free list in first-occurrence order (Python's order is "
+    "unspecified; count_independent_of_collection_order shows the order cannot matter); the directory of a history "
+    "holds one entry per name; what a {time} field renders to is a parameter of created_path_in_family / "
+    "renamed_path_in_family (non-empty, no '/', for the rename no '.')",
 ]
 ASSUMPTIONS = ["generated duration spellings denote a whole number of microseconds (float rounding inside "
                "parse_duration cannot move them); file ages differ from the limit by >= 1 ms unless exactly representable",
@@ -491,6 +499,23 @@ def _num_text(rng, unit_us, small):
     return str(whole), whole * unit_us
 
 
+def _respell_number(rng, text):
+    """another spelling of the same decimal number that `float()` reads to the same value: explicit plus
+    sign, an exponent part (the item regex admits `e + - . digits`)"""
+    k = rng.below(100)
+    if k < 80:
+        return text
+    if k < 85:
+        return "+" + text
+    if k < 90:
+        return text + rng.choice(["e0", "E0", "e+0", "e-0"])
+    if text.isdigit() and k < 95:
+        return "%de-1" % (int(text) * 10)
+    if text.isdigit() and int(text) % 10 == 0 and int(text) > 0:
+        return "%d%s1" % (int(text) // 10, rng.choice(["e", "E", "e+"]))
+    return text
+
+
 def gen_duration(rng, small=None):
     """(spelling or None, exact microseconds).  None = pass a datetime.timedelta.  `small` durations are
     between 1 ms and ~90 s, the others at least an hour (the sink's own freshly written files are ~1000 s
@@ -515,6 +540,7 @@ def gen_duration(rng, small=None):
         for i in idx:
             names, uus = units[i]
             text, us = _num_text(rng, uus, small)
+            text = _respell_number(rng, text)
             name = rng.choice(names)
             if rng.chance(8):
                 name = name.upper()
@@ -652,6 +678,116 @@ def gen_case(rng, idx):
     return case
 
 
+TOUCH_DELTAS = [0, 5, 10, 15, 20, 25, 30, 45, 50, 60, 70, 90, 1000, -5, -50]
+
+
+def gen_hist_case(rng, idx):
+    """a HISTORY: the population changes (files are modified again, appear, disappear; the clock advances)
+    between 2-4 rotations of one sink, each of which runs retention, optionally followed by stop().
+    Every pass must judge the directory as it is at that moment."""
+    case = gen_case(rng, idx)
+    while "!s" in case["path"]:
+        # `{time!s}` names the file after the ADDRESS of a temporary object: a later rotation can reuse the name
+        # of an older file and append to it - an artefact of that configuration, not a retention matter
+        case = gen_case(rng, idx)
+    case["stream"] = "hist"
+    case["trigger"] = rng.choice(["rotate", "rotate", "rotate", "rotate", "stop"])
+    ents = case["entries"]
+    rng.shuffle(ents)
+    nlate = rng.range(0, min(3, len(ents)))
+    late, case["entries"] = ents[:nlate], ents[nlate:]
+    dur_us = case.get("dur_us", 0)
+    if case["policy"] == "count":
+        case["arg"] = rng.range(0, max(2, len(case["entries"]) + 2))
+    evs, k = [], 0
+
+    def outside(n):
+        for _ in range(n):
+            what = rng.choice(["touch", "touch", "touch", "touch", "create", "unlink"])
+            if what == "touch":
+                evs.append(["touch", rng.below(1000), rng.choice(TOUCH_DELTAS), age_deltas(rng, dur_us) if dur_us else 0])
+            elif what == "create" and late:
+                ent = late.pop()
+                if dur_us:
+                    ent["delta_us"] = age_deltas(rng, dur_us)
+                evs.append(["create", ent])
+            elif what == "unlink":
+                evs.append(["unlink", rng.below(1000)])
+
+    nrot = rng.range(2, 4) if case["trigger"] == "rotate" else rng.range(0, 1)
+    for r in range(nrot):
+        for _ in range(rng.range(0, 1)):
+            evs.append(["w", "w%d\n" % k])
+            k += 1
+        outside(rng.range(0, 3) if r else rng.range(0, 1))
+        if dur_us and rng.chance(40):
+            evs.append(["clock", rng.choice([1, 2, 30, 3600, max(1, dur_us // 10**6), max(1, dur_us // (2 * 10**6))])])
+        evs.append(["w", "R%d\n" % r])
+    if case["trigger"] == "stop":
+        evs.append(["w", "w%d\n" % k])
+        outside(rng.range(0, 2))
+        evs.append(["stop"])
+        if rng.chance(30) and case["api"] == "sink":
+            evs.append(["stop"])          # a second stop() of the sink object
+    elif rng.chance(50):
+        outside(rng.range(0, 2))
+        evs.append(["stop"])
+    case["events"] = evs
+    return case
+
+
+def hist_model_line(case, path, steps, final):
+    """the history as the model sees it: outside changes as put/del events (derived from the snapshots),
+    every retention pass as `R now`"""
+    toks, state = [], {}
+
+    def move_to(target):
+        for n in sorted(state):
+            if n not in target:
+                toks.append("D %s" % enc(n))
+        for n in sorted(target):
+            if state.get(n) != target[n]:
+                toks.append("P %s %s %d" % (enc(n), target[n][0], target[n][1]))
+        state.clear()
+        state.update(target)
+
+    for st in steps:
+        move_to({n: (k, m // 1000) for n, k, m in st["pool"]})
+        toks.append("R %d" % (st["now"] * 10**6))
+        for d in st["deleted"]:
+            state.pop(d, None)
+    move_to({n: (a["kind"], a["mtime"] // 1000) for n, a in final.items()})
+    if case["policy"] == "count":
+        kind, arg = "i", "%d" % case["arg"]
+    elif case["policy"] == "age":
+        k, a = steps[0]["age_cfg"] if steps else ("t", case_dur_us(case))
+        kind, arg = k, (enc(a) if k == "s" else "%d" % a)
+    else:
+        kind, arg = "c", "0"
+    return ("hist %s %s %s %s" % (enc(path), kind, arg, " ".join(toks))).rstrip()
+
+
+def compare_hist(case, steps, final, out):
+    if not out.startswith("ok "):
+        return "model: " + out
+    body, _, fin = out[3:].partition(" # ")
+    passes = body.split("|") if body else []
+    if len(passes) != len(steps):
+        return "model ran %d passes, the implementation %d" % (len(passes), len(steps))
+    for i, (st, p) in enumerate(zip(steps, passes)):
+        names = sorted(dec(x) for x in p.split(",")) if p != "-" else []
+        if st["policy"] == "callable":
+            got = sorted(set(posixpath.normpath(x) for c in st["calls"] for x in c))
+            if got != names:
+                return "pass %d: callable received %r, model hands %r" % (i + 1, got, names)
+        elif names != sorted(st["deleted"]):
+            return "pass %d: removed %r, model removes %r" % (i + 1, sorted(st["deleted"]), names)
+    fnames = sorted(dec(x) for x in fin.split(",")) if fin != "-" else []
+    if fnames != sorted(final):
+        return "final directory %r, model %r" % (sorted(final), fnames)
+    return None
+
+
 def kind_letter(p):
     """file type as os.stat reports it (links followed): r d p(ipe) s(ocket) c b, m(issing) for a dangling link"""
     import stat as st
@@ -678,6 +814,34 @@ def make_socket(p):
     finally:
         os.chdir(cwd)
         sk.close()
+
+
+def create_entry(p, k, targets):
+    """one directory entry of kind `k` at path p (the parent exists)"""
+    if k == "file":
+        with open(p, "w") as fh:
+            fh.write("old\n")
+    elif k == "dir":
+        os.mkdir(p)
+    elif k == "dirfull":
+        os.mkdir(p)
+        with open(p + "/" + os.path.basename(p), "w") as fh:
+            fh.write("old\n")
+    elif k == "linkfile":
+        os.symlink(os.path.abspath(targets + "/fileT"), p)
+    elif k == "linkdir":
+        os.symlink(os.path.abspath(targets + "/dirT"), p)
+    elif k == "fifo":
+        os.mkfifo(p)
+    elif k == "socket":
+        make_socket(p)
+    elif k == "linkfifo":
+        os.symlink(os.path.abspath(targets + "/fifoT"), p)
+    elif k == "chardev":
+        import stat as _st
+        os.mknod(p, 0o600 | _st.S_IFCHR, os.makedev(1, 3))   # needs privileges: skipped otherwise
+    else:
+        os.symlink(os.path.abspath(targets + "/nothing"), p)
 
 
 def snapshot(root):
@@ -711,12 +875,13 @@ class _FrozenClock:
         import loguru._file_sink as fs
         self.fs = fs
         self.orig = fs.datetime
-        frozen_t = t
+        self.t = t
+        holder = self
 
         class FrozenDT(pydt.datetime):
             @classmethod
             def now(cls, tz=None):
-                return pydt.datetime.fromtimestamp(frozen_t, tz)
+                return pydt.datetime.fromtimestamp(holder.t, tz)
 
         ns = types.SimpleNamespace(**{k: getattr(pydt, k) for k in dir(pydt) if not k.startswith("__")})
         ns.datetime = FrozenDT
@@ -767,14 +932,17 @@ def run_case(case, case_root, keep=False):
         retention = age_retention_arg(case)
     else:
         retention = cb
-    rotation = (lambda message, file: str(message) == "m2\n") if case["trigger"] == "rotate" else None
+    if "events" in case:
+        rotation = (lambda message, file: str(message).startswith("R")) if case["trigger"] == "rotate" else None
+    else:
+        rotation = (lambda message, file: str(message) == "m2\n") if case["trigger"] == "rotate" else None
     targets = prefix + "_targets"
     os.makedirs(targets + "/dirT", exist_ok=True)
     with open(targets + "/fileT", "w") as fh:
         fh.write("target\n")
     if not os.path.lexists(targets + "/fifoT"):
         os.mkfifo(targets + "/fifoT")
-    with _FrozenClock(t_frozen):
+    with _FrozenClock(t_frozen) as clock:
         lg = hid = sink = None
         try:
             if case["api"] == "sink":
@@ -797,30 +965,7 @@ def run_case(case, case_root, keep=False):
                 try:
                     os.makedirs(os.path.dirname(p), exist_ok=True)
                     k = ent["kind"]
-                    if k == "file":
-                        with open(p, "w") as fh:
-                            fh.write("old\n")
-                    elif k == "dir":
-                        os.mkdir(p)
-                    elif k == "dirfull":
-                        os.mkdir(p)
-                        with open(p + "/" + os.path.basename(p), "w") as fh:
-                            fh.write("old\n")
-                    elif k == "linkfile":
-                        os.symlink(os.path.abspath(targets + "/fileT"), p)
-                    elif k == "linkdir":
-                        os.symlink(os.path.abspath(targets + "/dirT"), p)
-                    elif k == "fifo":
-                        os.mkfifo(p)
-                    elif k == "socket":
-                        make_socket(p)
-                    elif k == "linkfifo":
-                        os.symlink(os.path.abspath(targets + "/fifoT"), p)
-                    elif k == "chardev":
-                        import stat as _st
-                        os.mknod(p, 0o600 | _st.S_IFCHR, os.makedev(1, 3))   # needs privileges: skipped otherwise
-                    else:
-                        os.symlink(os.path.abspath(targets + "/nothing"), p)
+                    create_entry(p, k, targets)
                     if case["policy"] == "age":
                         mt_ns = (t_frozen * 10**6 - dur_us + ent.get("delta_us", ent["delta"] * 10**6)) * 1000
                     else:
@@ -835,7 +980,7 @@ def run_case(case, case_root, keep=False):
             os.utime(targets + "/fifoT", ns=(mt_ns, mt_ns))
 
             def do(op):
-                if op in ("m1\n", "m2\n"):
+                if op != "stop":
                     if sink is not None:
                         sink.write(op)
                     else:
@@ -846,17 +991,76 @@ def run_case(case, case_root, keep=False):
                     else:
                         lg.remove(hid)
 
-            for op in ("m1\n", "m2\n", "stop"):
-                before = snapshot(prefix)
-                ncalls = len(received)
-                exc = None
-                try:
-                    do(op)
-                except Exception as e:  # noqa
-                    exc = e
-                after = snapshot(prefix)
-                expect_ret = (op == "m2\n" and case["trigger"] == "rotate") or (op == "stop" and case["trigger"] == "stop")
-                problems += judge(case, info, op, before, after, expect_ret, exc, received[ncalls:], t_frozen, steps, path)
+            def place(ent, p):
+                """create the entry and give it its modification time (relative to the clock as it is now)"""
+                k = ent["kind"]
+                create_entry(p, k, targets)
+                if k in ("file", "dir", "dirfull", "fifo", "socket", "chardev"):
+                    mt = mtime_ns_of(ent)
+                    os.utime(p, ns=(mt, mt))
+
+            def mtime_ns_of(ent):
+                if case["policy"] == "age":
+                    return (clock.t * 10**6 - dur_us + ent.get("delta_us", ent.get("delta", 0) * 10**6)) * 1000
+                return (base_count + ent["delta"]) * 10**9
+
+            history = "events" in case
+            events = case["events"] if history else [["w", "m1\n"], ["w", "m2\n"], ["stop"]]
+            for ev in events:
+                if ev[0] in ("w", "stop"):
+                    op = ev[1] if ev[0] == "w" else "stop"
+                    before = snapshot(prefix)
+                    tb = snapshot(targets)
+                    ncalls = len(received)
+                    exc = None
+                    try:
+                        do(op)
+                    except Exception as e:  # noqa
+                        exc = e
+                    after = snapshot(prefix)
+                    ta = snapshot(targets)
+                    if history:
+                        rotating = op != "stop" and op.startswith("R") and rotation is not None
+                        expect_ret = rotating or (op == "stop" and rotation is None)
+                    else:
+                        rotating = op == "m2\n" and case["trigger"] == "rotate"
+                        expect_ret = rotating or (op == "stop" and case["trigger"] == "stop")
+                    problems += judge(case, info, op, before, after, expect_ret, exc, received[ncalls:], clock.t, steps, path,
+                                      rot_msg=op.encode() if rotating else None)
+                    # nothing outside the log directory is touched: the targets of the symbolic links
+                    for n in sorted(set(tb) | set(ta)):
+                        if n not in ta:
+                            problems.append(("oracle", "%r removed %r, a file OUTSIDE the log directory (the target of "
+                                                       "symbolic links named like log files)" % (op, n)))
+                        elif n in tb and (tb[n]["mtime"], tb[n]["content"]) != (ta[n]["mtime"], ta[n]["content"]):
+                            problems.append(("oracle", "%r modified %r, a file outside the log directory" % (op, n)))
+                    state["final"] = after
+                    if exc is not None and history:
+                        break
+                elif ev[0] == "clock":
+                    clock.t += ev[1]
+                elif ev[0] == "create":
+                    ent = ev[1]
+                    p = prefix + "/" + ent["name"]
+                    if os.path.lexists(p):
+                        continue
+                    try:
+                        os.makedirs(os.path.dirname(p), exist_ok=True)
+                        place(ent, p)
+                    except (OSError, NotADirectoryError):
+                        pass
+                elif ev[0] in ("touch", "unlink"):
+                    snap = snapshot(prefix)
+                    cands = sorted(n for n, a in snap.items() if a["isfile"] and not a["islink"]
+                                   and (ev[0] == "touch" or a["content"] == b"old\n"))
+                    if not cands:
+                        continue
+                    n = cands[ev[1] % len(cands)]
+                    if ev[0] == "unlink":
+                        os.remove(n)
+                    else:
+                        mt = mtime_ns_of({"delta": ev[2], "delta_us": ev[3]})
+                        os.utime(n, ns=(mt, mt))
         finally:
             try:
                 if sink is not None and sink._file is not None:
@@ -868,10 +1072,12 @@ def run_case(case, case_root, keep=False):
                         pass
             except Exception:  # noqa
                 pass
+    if "final" in state:
+        steps.append({"final": state["final"]})
     return problems, steps
 
 
-def judge(case, info, op, before, after, expect_ret, exc, calls, t_frozen, steps, path):
+def judge(case, info, op, before, after, expect_ret, exc, calls, t_frozen, steps, path, rot_msg=None):
     """the property itself, on one operation of the sink (model-independent)"""
     probs = []
     D = sorted(set(before) - set(after))
@@ -897,8 +1103,8 @@ def judge(case, info, op, before, after, expect_ret, exc, calls, t_frozen, steps
             probs.append(("oracle", "retention callable invoked at %r although no retention is due" % op))
         return probs
     new = None
-    if op == "m2\n":
-        cands = [n for n, a in after.items() if a["content"] == b"m2\n"]
+    if rot_msg is not None:
+        cands = [n for n, a in after.items() if a["content"] == rot_msg]
         if len(cands) == 1:
             new = cands[0]
         else:
@@ -940,7 +1146,7 @@ def judge(case, info, op, before, after, expect_ret, exc, calls, t_frozen, steps
                 probs.append(("oracle", "retention callable received duplicates: %r" % (got,)))
             if sorted(set(got)) != managed:
                 probs.append(("oracle", "retention callable received %r, the family files are %r" % (sorted(set(got)), managed)))
-            if new is not None and new in calls[0][1] and before.get(new, {}).get("content") != b"m2\n" \
+            if new is not None and new in calls[0][1] and before.get(new, {}).get("content") != rot_msg \
                     and not (new in before):
                 probs.append(("oracle", "the new file %r already existed when retention ran" % new))
             if new is not None and new in before and new in calls[0][1]:
@@ -956,7 +1162,8 @@ def judge(case, info, op, before, after, expect_ret, exc, calls, t_frozen, steps
 def model_lines(case, path, steps):
     lines = []
     for st in steps:
-        ents = " ".join("%s %s %d" % (enc(n), f, m) for n, f, m in st["pool"])
+        # modification times cross the pipe in MICROSECONDS in every stream
+        ents = " ".join("%s %s %d" % (enc(n), f, m // 1000) for n, f, m in st["pool"])
         if st["policy"] == "count":
             lines.append(("ret %s c %d 0 %s" % (enc(path), st["arg"], ents)).rstrip())
         elif st["policy"] == "age":
@@ -984,21 +1191,22 @@ def case_key(case):
     return json.dumps(case, sort_keys=True)
 
 
-def stream_e2e(ctx, drv, rng, cases=None):
+def stream_e2e(ctx, drv, rng, cases=None, hist=False):
     base = tempfile.mkdtemp(prefix="c10e_")
     cwd = os.getcwd()
     pending = []
-    n = ctx.n(700, 20000) * (3 if getattr(ctx, "search_boost", False) else 1)
+    n = (ctx.n(150, 2500) if hist else ctx.n(450, 16000)) * (3 if getattr(ctx, "search_boost", False) else 1)
     try:
         os.chdir(base)
         todo = list(cases or [])
         for i in range(n if cases is None else 0):
-            todo.append(gen_case(rng, i))
+            todo.append(gen_hist_case(rng, i) if hist else gen_case(rng, i))
         for i, case in enumerate(todo):
-            root = "c%d" % i
+            root = "%s%d" % ("h" if hist else "c", i)
             os.mkdir(root)
             replay_case = json.loads(json.dumps(case))
             probs, steps = run_case(case, root)
+            final = steps.pop()["final"] if steps and "final" in steps[-1] else {}
             shutil.rmtree(root, ignore_errors=True)
             shutil.rmtree(os.path.abspath(root) + "_targets", ignore_errors=True)
             if probs and probs[0][0] == "skip":
@@ -1029,8 +1237,16 @@ def stream_e2e(ctx, drv, rng, cases=None):
             for kind, what in probs:
                 ctx.violation("path %r, retention %s=%r, trigger %s: %s" % (case["path"], case["policy"], case["arg"], case["trigger"], what),
                               replay_case, kind="oracle")
-            for st, line in zip(steps, model_lines(case, path, steps)):
-                pending.append((replay_case, st, line))
+            if "events" in case:
+                ctx.stat("hist_cases")
+                ctx.stat("hist_passes", len(steps))
+                ctx.stat("hist_passes_%d" % min(len(steps), 4))
+                for ev in case["events"]:
+                    ctx.stat("hist_ev_" + ev[0])
+                pending.append((replay_case, (steps, final), hist_model_line(case, path, steps, final)))
+            else:
+                for st, line in zip(steps, model_lines(case, path, steps)):
+                    pending.append((replay_case, st, line))
     finally:
         os.chdir(cwd)
         shutil.rmtree(base, ignore_errors=True)
@@ -1040,14 +1256,19 @@ def stream_e2e(ctx, drv, rng, cases=None):
     bad = 0
     for (case, st, line), o in zip(pending, out):
         ctx.traces_validated += 1
-        msg = compare_model(st, o)
+        if "events" in case:
+            msg = compare_hist(case, st[0], st[1], o)
+            name = "correspondence Retention.runEvs (history of passes)"
+        else:
+            msg = compare_model(st, o)
+            name = "correspondence Retention.retentionOf (end to end)"
         if msg is not None:
             bad += 1
             if bad <= 3:
-                ctx.broke("correspondence Retention.retentionOf (end to end)", "path %r: %s" % (case["path"], msg))
+                ctx.broke(name, "path %r: %s" % (case["path"], msg))
             ctx.violation("path %r, retention %s=%r: %s" % (case["path"], case["policy"], case["arg"], msg), case,
                           kind="correspondence")
-    ctx.stat("e2e_model_steps", len(pending))
+    ctx.stat("hist_model_lines" if hist else "e2e_model_steps", len(pending))
 
 
 # ----------------------------------------------------------------------------- documented duration spellings
@@ -1079,8 +1300,42 @@ def impl_policy(arg):
     return "callable" if callable(f) else "other"
 
 
+def _special_args():
+    """unusual but legal (or clearly illegal) `retention=` arguments: name -> (object, expected canonical policy, model line)"""
+    import decimal
+    import enum
+    import functools
+
+    class Keep(enum.IntEnum):
+        THREE = 3
+
+    class TD(pydt.timedelta):
+        pass
+
+    class S(str):
+        pass
+
+    class Fn:
+        def __call__(self, logs):
+            pass
+
+    return {
+        "bool_true": (True, "count 1", "mk i 1"), "bool_false": (False, "count 0", "mk i 0"),
+        "intenum_3": (Keep.THREE, "count 3", "mk i 3"),
+        "timedelta_subclass": (TD(seconds=2, microseconds=700000), "age 2700000", "mk t 2700000"),
+        "str_subclass": (S("2 s 700 ms"), "age 2700000", "mk s %s" % enc("2 s 700 ms")),
+        "callable_object": (Fn(), "callable", "mk c 0"), "partial": (functools.partial(print, end=""), "callable", "mk c 0"),
+        "builtin": (len, "callable", "mk c 0"), "none": (None, "none", "mk n 0"),
+        "decimal": (decimal.Decimal(2), "err TypeError", "mk o 0"), "list": ([1], "err TypeError", "mk o 0"),
+        "bytes": (b"1 s", "err TypeError", "mk o 0"), "tuple": ((1,), "err TypeError", "mk o 0"),
+        "time": (pydt.time(1, 0), "err TypeError", "mk o 0"), "date": (pydt.datetime(2020, 1, 1), "err TypeError", "mk o 0"),
+    }
+
+
 def dispatch_arg(r):
     """replay dict -> the retention argument"""
+    if r.get("special") is not None:
+        return _special_args()[r["special"]][0]
     if r.get("timedelta_us") is not None:
         return pydt.timedelta(microseconds=r["timedelta_us"])
     return r["retention"]
@@ -1106,8 +1361,11 @@ def stream_dispatch(ctx, drv, rng, only=None):
         for n in (0, 1, 5, 17, rng.range(0, 1000)):
             items.append({"stream": "dispatch", "retention": n, "expect": "count %d" % n})
         for bad, exp in (("nope", "err ValueError"), ("", "err ValueError"), ("3 dayz", "err ValueError"),
-                         ("1.2.3 s", "err ValueError"), (1.5, "err TypeError")):
+                         ("1.2.3 s", "err ValueError"), (1.5, "err TypeError"), ("1e s", "err ValueError"),
+                         ("s", "err ValueError"), ("5", "err ValueError"), ("1 s x", "err ValueError")):
             items.append({"stream": "dispatch", "retention": bad, "expect": exp})
+        for name, (_obj, exp, _line) in sorted(_special_args().items()):
+            items.append({"stream": "dispatch", "retention": name, "special": name, "expect": exp})
     lines, keep = [], []
     for r in items:
         arg = dispatch_arg(r)
@@ -1128,7 +1386,10 @@ def stream_dispatch(ctx, drv, rng, only=None):
             want = r["expect"]
         if want is not None and got != want:
             ctx.violation("retention=%r denotes %s, but the configured policy is %s" % (arg, want, got), r, kind="oracle")
-        if isinstance(arg, str):
+        if r.get("special") is not None:
+            ctx.stat("dispatch_unusual_argument_types")
+            lines.append(_special_args()[r["special"]][2])
+        elif isinstance(arg, str):
             lines.append("mk s %s" % enc(arg))
         elif isinstance(arg, pydt.timedelta):
             lines.append("mk t %d" % r["timedelta_us"])
@@ -1147,6 +1408,110 @@ def stream_dispatch(ctx, drv, rng, only=None):
             if bad <= 3:
                 ctx.broke("correspondence Retention.makeRetention", "retention=%r: impl %s, model %s" % (dispatch_arg(r), got, o))
     ctx.stat("dispatch_model_disagreements", bad)
+
+
+# ----------------------------------------------------------------------------- the sink's own file names
+def _fills_of(toks, name):
+    """one decomposition of `name` along the template: the text each field stands for (None: no match)"""
+    rx = "".join(re.escape(t[1]) if t[0] == "lit" else "(.*?)" for t in toks)
+    m = re.fullmatch(rx, name, re.S)
+    return None if m is None else list(m.groups())
+
+
+def stream_own(ctx, drv, rng):
+    """`FileSink._create_path()` and `generate_rename_path` on generated templates: the name of the file the
+    sink creates, and the name a rotated file is moved to, are members of the sink's family whenever the
+    fields render to non-empty text without '/' (and without '.' for the rename) - theorems
+    `created_path_in_family`, `renamed_path_in_family`; model: `instantiate`, `renameTarget` over the generated
+    format strings."""
+    from loguru._file_sink import FileSink
+    import loguru._file_sink as fsmod
+    base = tempfile.mkdtemp(prefix="c10o_")
+    cwd = os.getcwd()
+    lines, keep = [], []
+    try:
+        os.chdir(base)
+        here = os.getcwd()
+        for i in range(ctx.n(200, 5000)):
+            path = gen_path(rng)
+            try:
+                toks = template_tokens(path)
+                sink = FileSink(path, delay=True)
+                created_abs = sink._create_path()
+            except (ValueError, KeyError, IndexError, AttributeError, TypeError):
+                ctx.stat("own_skipped_template")
+                continue
+            if not created_abs.startswith(here + "/"):
+                ctx.stat("own_skipped_outside")
+                continue
+            created = created_abs[len(here) + 1:]
+            fills = _fills_of(toks, created)
+            if fills is None:
+                ctx.broke("FileSink._create_path() is not the configured path with its fields rendered",
+                          "path %r -> %r" % (path, created))
+                continue
+            good = all(f and "/" not in f for f in fills)
+            good_d = good and all("." not in f for f in fills)
+            info = family_info(path)
+            ctx.case(("own", path), nontrivial=bool(fills) and any(c in path for c in "[]*?."))
+            ctx.stat("own_templates")
+            if good and not in_family(info, created):
+                ctx.broke("created_path_in_family vs FileSink._create_path",
+                          "path %r creates %r, which is not in the family of the path" % (path, created))
+            # the rename of a rotated file that keeps its name
+            root, ext = os.path.splitext(created)
+            want_counter = rng.chance(40)
+            ctime = 1.0e9 + rng.below(10**6) + rng.below(10**6) / 10**6
+            try:
+                first = fsmod.generate_rename_path(root, ext, ctime)
+                renamed = first
+                if want_counter:
+                    os.makedirs(os.path.dirname(first) or ".", exist_ok=True)
+                    open(first, "w").close()
+                    renamed = fsmod.generate_rename_path(root, ext, ctime)
+                    os.remove(first)
+            except OSError:
+                ctx.stat("own_skipped_oserror")
+                continue
+            m = re.fullmatch(re.escape(root) + r"\.(.*)" + re.escape(ext), renamed, re.S) if renamed.startswith(root + ".") else None
+            if m is None:
+                ctx.broke("generate_rename_path does not insert '.<date>' before the extension",
+                          "%r -> %r" % (created, renamed))
+                continue
+            inserted = m.group(1)
+            date, counter = inserted, None
+            if want_counter and "." in inserted:
+                date, _, counter = inserted.rpartition(".")
+            if good_d:
+                ctx.stat("own_rename_judged")
+                if not in_family(info, renamed):
+                    ctx.broke("renamed_path_in_family vs generate_rename_path",
+                              "path %r: rotated file %r is moved to %r, which is not in the family" % (path, created, renamed))
+            ftoks, fi = [], iter(fills)
+            for t in toks:
+                ftoks.append("L" + enc(t[1]) if t[0] == "lit" else "F" + enc(next(fi)))
+            lines.append(("own %s %s %s %s" % (enc(path), enc(date), enc(counter) if counter is not None else "-", " ".join(ftoks))).rstrip())
+            keep.append((path, created, renamed, good, good_d))
+    finally:
+        os.chdir(cwd)
+        shutil.rmtree(base, ignore_errors=True)
+    out = drv.run(lines) if lines else []
+    if out is None:
+        return
+    bad = 0
+    for (path, created, renamed, good, good_d), o in zip(keep, out):
+        parts = o.split()
+        if len(parts) != 4:
+            ctx.broke("driver own", "%r -> %r" % (path, o))
+            continue
+        mc, mf, mr, mrf = dec(parts[0]), parts[1], dec(parts[2]), parts[3]
+        if mc != created or mr != renamed or (good and mf != "1") or (good_d and mrf != "1"):
+            bad += 1
+            if bad <= 3:
+                ctx.broke("correspondence Retention.instantiate / renameTarget (the sink's own file names)",
+                          "path %r: implementation creates %r and renames to %r; model %r (family %s) and %r (family %s)"
+                          % (path, created, renamed, mc, mf, mr, mrf))
+    ctx.stat("own_model_disagreements", bad)
 
 
 def probe_alias(ctx):
@@ -1194,15 +1559,25 @@ def load_corpus():
 def run(ctx):
     rng = ctx.rng
     drv = SafeDriver(ctx)
-    corpus = [c for c in load_corpus() if c.get("stream") == "e2e"]
+    timing = []
+
+    def timed(name, f, *a, **k):
+        t0 = time.time()
+        f(*a, **k)
+        timing.append("%s %.1fs" % (name, time.time() - t0))
+
+    corpus = [c for c in load_corpus() if c.get("stream") in ("e2e", "hist")]
     if corpus:
-        stream_e2e(ctx, drv, rng.fork("corpus"), cases=corpus)
+        timed("corpus", stream_e2e, ctx, drv, rng.fork("corpus"), cases=corpus)
         ctx.stat("corpus_cases", len(corpus))
-    stream_e2e(ctx, drv, rng.fork("e2e"))
-    stream_dispatch(ctx, drv, rng.fork("dispatch"))
+    timed("e2e", stream_e2e, ctx, drv, rng.fork("e2e"))
+    timed("hist", stream_e2e, ctx, drv, rng.fork("hist"), hist=True)
+    timed("dispatch", stream_dispatch, ctx, drv, rng.fork("dispatch"))
     probe_alias(ctx)
-    stream_patterns(ctx, drv, rng.fork("patterns"))
-    stream_stdlib(ctx, drv, rng.fork("stdlib"))
+    timed("own", stream_own, ctx, drv, rng.fork("own"))
+    timed("patterns", stream_patterns, ctx, drv, rng.fork("patterns"))
+    timed("stdlib", stream_stdlib, ctx, drv, rng.fork("stdlib"))
+    ctx.note("wall time per stream: " + ", ".join(timing))
     seen, uniq = set(), []
     for b in ctx.broken:
         if b["name"] not in seen:
@@ -1214,7 +1589,7 @@ def run(ctx):
 def replay(ctx, rep):
     r = rep["replay"]
     drv = SafeDriver(ctx)
-    if r.get("stream") == "e2e":
+    if r.get("stream") in ("e2e", "hist"):
         # several directories: an outcome that depends on set iteration order (tie-break lost) needs a few tries
         stream_e2e(ctx, drv, ctx.rng, cases=[json.loads(json.dumps(r)) for _ in range(8)])
     elif r.get("stream") == "patterns":
